@@ -31,7 +31,7 @@ REGISTRY = {
                    dict(kind='egg', file='replays/cont/merged_container_parent_refresh.egg', args=('-j', '4')),
                    dict(kind='egg', file='replays/cont/nested_containers.egg', args=('-j', '4'))]},
     'sched': {'*': [dict(kind='egg', file='replays/sched/schedules.egg'), dict(kind='egg', file='replays/sched/nested_repeat.egg')]},
-    'merge': {'*': [dict(kind='egg', file='replays/merge/merge_and_subsume.egg'),
+    'merge': {'*': [dict(kind='egg', file='replays/merge/merge_and_subsume.egg'), dict(kind='egg', file='replays/merge/subsumed_relation_row.egg'),
                     dict(kind='egg', file='replays/merge/parallel_in_batch_merge.egg', args=('-j', '4'), env={'EGGLOG_PARALLEL_TABLE_OP_CUTOFF': '0'}),
                     dict(kind='egg', file='replays/merge/extract_skips_subsumed.egg', forbid_out='(Mul (Var "a") (Num 2))', require_out='(Shl (Var "a") (Num 1))')]},
     'semi': {'*': [dict(kind='egg', file='replays/semi/seminaive.egg'), dict(kind='egg', file='replays/semi/seminaive.egg', args=('--naive',)),
